@@ -362,6 +362,8 @@ def check_no_panic(ctx, rep, tier):
         for nm in names:
             stage_opaque.add(find_method(ctx, adt, nm)['path'])
     ed_methods = [f for f in handwritten if (f.get('impl_self') or {}).get('path') == 'EventDecoder' and not f.get('impl_trait')]
+    from .rules_event import ed_extra_state_guard
+    ed_extra_state_guard(ctx)
     def run_api(f, label, **kw):
         # operations the statement lists must be decidable; an addition to the API that is not is noted, not judged
         try:
